@@ -306,7 +306,10 @@ pub fn with_hooks(op: String) -> String {
     if (kind != "arc" && kind != "sector") || op.split(' ').any(|x| x == HOOK_MARK) {
         return op;
     }
-    let tail = {
+    // The hook values come from the real trigonometric code: if that code panics for these angles (round-5 seed C08-r5-1:
+    // the fixed-point sine table indexed out of range below -360 degrees) the GENERATOR must survive - the op is emitted
+    // without hook tokens (the model skips it) and executing it reports the panic as an oracle failure with this op.
+    let tail = std::panic::catch_unwind(|| {
         let mut t = Toks::new(&op);
         let _stream = t.str();
         let shape = Shape::parse(&mut t);
@@ -323,7 +326,8 @@ pub fn with_hooks(op: String) -> String {
             }
             _ => String::new(),
         }
-    };
+    })
+    .unwrap_or_default();
     op + &tail
 }
 
